@@ -415,6 +415,26 @@ func (x *Exec) stdlibModel(fr *frame, s *State, callee *ssa.Function, args []Val
 		return []Value{out}, true
 	case k == "fmt.Sprintf", k == "fmt.Sprint", k == "strconv.Quote":
 		return []Value{{T: res(0), L: []Term{x.C.Fresh("sprintf", SStr)}}}, true
+	case k == "strconv.Itoa":
+		// Itoa(n) is a function of n whose result Atoi maps back to n (hence Itoa is injective)
+		x.C.DeclareFun("sx.itoa", []Sort{SBV64}, SStr)
+		x.C.DeclareFun("sx.atoi", []Sort{SStr}, SBV64)
+		x.C.DeclareFun("sx.atoiok", []Sort{SStr}, SBool)
+		n := args[0].L[0]
+		r := app(SStr, "sx.itoa", n)
+		x.C.Assume(And(Eq(app(SBV64, "sx.atoi", r), n), app(SBool, "sx.atoiok", r), Not(Eq(app(SBV64, "sx.len", r), BVLitI(64, 0)))))
+		x.C.Trusted["strconv.Atoi(strconv.Itoa(n)) == n, nil; Itoa(n) is not empty"] = true
+		return []Value{{T: res(0), L: []Term{r}}}, true
+	case k == "strconv.Atoi":
+		x.C.DeclareFun("sx.atoi", []Sort{SStr}, SBV64)
+		x.C.DeclareFun("sx.atoiok", []Sort{SStr}, SBool)
+		a := args[0].L[0]
+		ok := app(SBool, "sx.atoiok", a)
+		r := x.alloc(s, "err")
+		tag := IntLit(x.E.typeID(types.NewPointer(types.NewNamed(types.NewTypeName(token.NoPos, nil, "strconv.NumError", nil), types.NewStruct(nil, nil), nil))))
+		errV := Value{T: res(1), L: []Term{Ite(ok, IntLit(0), tag), Ite(ok, IntLit(0), r), BVLitI(64, 0)}}
+		x.C.Trusted["strconv.Atoi is a function of its argument (value and success)"] = true
+		return []Value{{T: res(0), L: []Term{Ite(ok, app(SBV64, "sx.atoi", a), BVLitI(64, 0))}}, errV}, true
 	case k == "strings.EqualFold":
 		a, b := args[0].L[0], args[1].L[0]
 		// reflexive, symmetric (by ordering the arguments is not possible syntactically: axioms instead)
